@@ -73,6 +73,7 @@ class DmapPairingHandler(
 
     async def begin(self) -> None:
         """Start the pairing server and publish service."""
+        self._has_paired = False
         port = unused_port()
 
         await self.runner.setup()
